@@ -137,6 +137,22 @@ func C15(c *Ctx) {
 		gs = append(gs, g)
 		nRep++
 	}
+	// and as the direct operand of & and ! (every Basic Latin rune enumerated, like the plain matcher)
+	for gi, g0 := range gs {
+		if gi >= c.N(6, 40) {
+			break
+		}
+		g := &gast.Grammar{}
+		for k, ru := range g0.Rules {
+			cl := ru.Expr.Subs[0].Clone()
+			e := gast.S(gast.AndE(cl), gast.Dot(), gast.NotE(gast.Dot()))
+			if k%2 == 1 {
+				e = gast.S(gast.NotE(cl), gast.Dot(), gast.NotE(gast.Dot()))
+			}
+			g.Rules = append(g.Rules, &gast.Rule{Name: ru.Name, Expr: e})
+		}
+		gs = append(gs, g)
+	}
 	var repInputs [][]byte
 	for _, x := range []string{"\ufffd", "\xff", "\x80", "é", "a", "\"", "~", "\u212a", "7"} {
 		for _, f := range []string{"%s", "a%sb", "%s%s", "<%s>", "<a%s", "<%s%sz>", "\"%s\""} {
